@@ -249,7 +249,11 @@ func runConc(p *concParams, prefix []int, extra func(w *harness.World, cr *concR
 					case "put":
 						b := model.Batch{{K: arg, V: val}}
 						call := tick()
-						err := db.Put([]byte(arg), []byte(val), wo)
+						kb, vb := []byte(arg), []byte(val)
+						err := db.Put(kb, vb, wo)
+						// the caller owns its buffers again as soon as the call returns (C20): overwrite them
+						scribble(kb)
+						scribble(vb)
 						record(ci, linInput{Kind: "write", Batch: b}, call, linOutput{Err: errStr(err)}, op)
 						durable(b, call, err)
 					case "del":
@@ -281,6 +285,11 @@ func runConc(p *concParams, prefix []int, extra func(w *harness.World, cr *concR
 						var err error
 						if t == "w" {
 							err = db.Write(lb, wo)
+							// reuse the batch at once, as a caller may: same keys, foreign values
+							lb.Reset()
+							for _, o := range mb {
+								lb.Put([]byte(o.K), []byte("SCRIBBLED-AFTER-RETURN"))
+							}
 						} else {
 							var tr *leveldb.Transaction
 							tr, err = db.OpenTransaction()
@@ -386,6 +395,12 @@ func runConc(p *concParams, prefix []int, extra func(w *harness.World, cr *concR
 		}
 	})
 	return r, cr
+}
+
+func scribble(b []byte) {
+	for i := range b {
+		b[i] = '#'
+	}
 }
 
 func errStr(err error) string {
